@@ -75,6 +75,13 @@ CHECKS["C12"] = dict(
     note="Built-in expectations are pinned in cbimc/props/c12.py; per-pass defines / paths compared as multisets.",
 )
 
+CHECKS["C06"] = dict(
+    cat="exploration", ref="DESIGN.md §3 C06",
+    technique="bounded-exhaustive enumeration of code bases (144 combinations of file bodies, header bodies, link decorations, unused files) x platform sets of size 0..4, each run through finder.find in-process and through the codebasin, cbi-tree (plain/--prune/-L) and cbi-cov front ends in-process with fd-level capture; oracle = cross-report identities",
+    text="For every enumerated case the summary rows must be the per-platform-set sums of the ground per-line attribution, their total the SLOC, percentages and metric lines the exact values; coverage.json must list sha512 ids and a used/unused partition of the counted lines; every cbi-tree directory row must be the sum of the non-link files beneath it, --prune must drop exactly the unused files and -L must only hide rows.",
+    note="Ground attribution comes from the real finder.find; outputs are parsed back from stdout / coverage.json; a slice also runs as real subprocesses.",
+)
+
 PENDING = {}
 
 
